@@ -393,6 +393,16 @@ class SignatureParamName(ParamNameInterface, AbstractNameDefinition):
             values |= annotation.execute_with_values()
         return values
 
+    def infer_annotation(self, execute_annotation=True, ignore_stars=False):
+        p = self._signature_param
+        if not p.has_annotation:
+            return NO_VALUES
+        inference_state = self.parent_context.inference_state
+        annotation = create_from_access_path(inference_state, p.annotation)
+        if execute_annotation:
+            return annotation.execute_with_values()
+        return ValueSet([annotation])
+
 
 class UnresolvableParamName(ParamNameInterface, AbstractNameDefinition):
     def __init__(self, compiled_value, name, default):
